@@ -160,7 +160,7 @@ func (o *c17Oracle) AfterAdmin(c *tableCtx, op *Op, pan any, applied bool) *Viol
 	return nil
 }
 
-var badPatterns = []string{"", "/a/{}", "/a/{:\\d+}", "/{a}{b}", "/x/{a}/{a}", "/{a:[}", "/p/{id:(}", "/{a}/{b}{c}/d"}
+var badPatterns = []string{"", "/a/{}", "/a/{:\\d+}", "/{a}{b}", "/x/{a}/{a}", "/x/{a}/{-a}", "/x/{-a}/y/{a:\\d+}/", "/{a:[}", "/p/{id:(}", "/{a}/{b}{c}/d"}
 
 // genC17Split: the history that leaves a parameter node split - register P, register a sibling that
 // shares the parameter and part of the following literal, remove the sibling - and then a pattern
@@ -464,7 +464,9 @@ func nearMethod(r *Rng) string {
 	supported := []string{"GET", "POST", "DELETE", "PUT", "PATCH", "CONNECT", "TRACE", "HEAD", "OPTIONS"}
 	for {
 		b := []byte(pick(r, supported))
-		switch r.Intn(6) {
+		switch r.Intn(7) {
+		case 6:
+			b = []byte(strings.ToLower(string(b)))
 		case 0:
 			i := r.Intn(len(b))
 			b[i] += 'a' - 'A'
